@@ -1652,6 +1652,9 @@ class EventType(VersionedOntologyElement, MutableMapping):
                                 # Note that the length of base64Binary data
                                 # is measured in octets, not characters.
                                 e.param('1', name='minLength'),
+                                # The base64Binary implementation of libxml2 silently skips
+                                # characters outside the base64 alphabet, so we need a pattern.
+                                e.param(r'[A-Za-z0-9+/=\s]*', name='pattern'),
                                 type='base64Binary'
                             ),
                             name=attachment_name
